@@ -10,7 +10,7 @@ cp -r /repo/kmip "$D/kmip"
 python3 "$(dirname "$(readlink -f "$0")")/apply_mutant.py" "$D" "$P"
 find "$D" -name '__pycache__' -prune -exec rm -rf {} + 2>/dev/null || true
 set +e
-VERIF_REPO="$D" "$(dirname "$(readlink -f "$0")")/../check" "$@"
+VERIF_EVIDENCE_DIR="$D/evidence" VERIF_REPO="$D" "$(dirname "$(readlink -f "$0")")/../check" "$@"
 rc=$?
 echo "mutant exit code: $rc"
 exit $rc
